@@ -86,6 +86,12 @@ func (l vLogicalRequest) asEnvoy() *envoy_auth.CheckRequest {
 func vDescribe(ctx heimdall.Context, cookieNames []string, headerNames []string) []string {
 	r := ctx.Request()
 	out := []string{"method=" + r.Method, "scheme=" + r.URL.Scheme, "host=" + r.URL.Host, "path=" + r.URL.Path, "query=" + r.URL.RawQuery}
+	// the text the rule lookup and the encoded-slash handling work on: the still encoded path if there is one
+	lookup := r.URL.Path
+	if len(r.URL.RawPath) != 0 {
+		lookup = r.URL.RawPath
+	}
+	out = append(out, "lookup-path="+lookup)
 	for _, n := range headerNames {
 		out = append(out, "header["+n+"]="+r.Header(n))
 	}
@@ -109,7 +115,13 @@ func VerifC13View() {
 	l := vLogicalRequest{scheme: []string{"http", "https"}[verifapi.NondetChoice("scheme", 2)], host: "svc.example",
 		method: []string{"GET", "POST"}[verifapi.NondetChoice("method", 2)]}
 	// path: plain symbolic letters or a percent-encoded octet
-	switch verifapi.NondetChoice("path", 3) {
+	switch verifapi.NondetChoice("path", 5) {
+	case 3:
+		l.path = "/files/2024%2Freport/info"
+		verifapi.Cover("encoded-path")
+	case 4:
+		l.path = "/docs/100%2541"
+		verifapi.Cover("encoded-path")
 	case 0:
 		l.path = "/files/" + string([]byte{verifapi.NondetByteRange("path.a", 'a', 'z'), verifapi.NondetByteRange("path.b", 'a', 'z')})
 	case 1:
